@@ -81,7 +81,11 @@ def AttrsWF(r: "ProvRecord") -> "bool":
         "str") and forall(
         lambda u, c: implies(vs_has(qm_get(r._attributes, u), c),
                              same(ck(vs_rep(qm_get(r._attributes, u), c)), c) and vs_n(qm_get(r._attributes, u)) > 0),
-        "str", "Val")
+        "str", "Val") and forall(
+        # the size field is the cardinality: a set of size <= 1 has at most one member
+        lambda u, c1, c2: implies(vs_n(qm_get(r._attributes, u)) <= 1 and vs_has(qm_get(r._attributes, u), c1)
+                                  and vs_has(qm_get(r._attributes, u), c2), same(c1, c2)),
+        "str", "Val", "Val")
 
 
 @spec
